@@ -473,6 +473,34 @@ class IndexInterp:
                 if nm == "copy":
                     return dict(base)
                 return base.get(args[0], args[1] if len(args) > 1 else None)
+        if isinstance(e.func, ast.Attribute) and dotted(e.func.value) == "re" and nm in ("match", "fullmatch", "search", "findall", "sub", "split") \
+                and len(args) >= 2 and all(isinstance(a, (str, int)) for a in args):
+            import re as _re          # a literal pattern applied to a literal string: evaluated like any other string operation
+            try:
+                return getattr(_re, nm)(*args)
+            except (_re.error, TypeError):
+                raise AnalysisError("the index program raises: `%s`" % src(e)[:60])
+        if isinstance(e.func, ast.Attribute) and nm in ("group", "groups", "start", "end", "span"):
+            try:
+                base = self.ev(e.func.value)
+            except AnalysisError:
+                base = None
+            if type(base).__name__ == "Match" and all(isinstance(a, (int, str)) for a in args):
+                try:
+                    return getattr(base, nm)(*args)
+                except (IndexError, TypeError):
+                    raise AnalysisError("the index program raises: `%s`" % src(e)[:60])
+        if isinstance(e.func, ast.Attribute) and nm in ("isdigit", "isnumeric", "isdecimal", "isalpha", "removeprefix", "removesuffix", "replace", "partition", "find", "index", "count"):
+            try:
+                base = self.ev(e.func.value)
+            except AnalysisError:
+                base = None
+            if isinstance(base, str) and all(isinstance(a, (str, int)) for a in args):
+                try:
+                    r0 = getattr(base, nm)(*args)
+                except ValueError:
+                    raise AnalysisError("the index program raises: `%s`" % src(e)[:60])
+                return list(r0) if isinstance(r0, tuple) and nm != "partition" else r0
         if plain and nm == "type" and len(args) == 1:
             v = args[0]
             if isinstance(v, SymObj):
